@@ -14,7 +14,8 @@ ASSUME = [
     "step (Deliver); one SETCONF gives one event naming every option it changed",
     "values are abstract tokens mapped per trace to concrete options of each declared type (String, Boolean, Float, Integer, "
     "Boolean+Auto, LineList x2, a *Port list); the harness checks the Python type of what reads return",
-    "save() is not re-entered while a save awaits its reply; "
+    "save() may be called again while an earlier save awaits its reply (random scripts only; the ideal mechanism is specified "
+    "for one save at a time, so from such a step on only conformance to the as-is mechanism is demanded); "
     "in-place edits of an option whose pending value is another object (an assignment, or an edit overtaken by a change event) "
     "and change events for options with pending local changes are part of the exploration",
     "the order of different options inside one SETCONF is not compared, the order of one option's values is",
@@ -50,6 +51,7 @@ def rand_script(rng, n, events):
             view[k] = ["d1"]
     script = [dict(a="Attach", store=dict((k, list(v)) for k, v in tor.items()))]
     pend, pval, busy, inflight, evq = [], {}, False, [], []
+    flights = []        # the pair lists of the saves awaiting a reply, oldest first
 
     def touch(o, v):
         if o not in pend:
@@ -66,14 +68,15 @@ def rand_script(rng, n, events):
                     view[o] = list(vals) if vals else ["d1"]
             continue
         if busy and r < 0.45:
+            head = flights.pop(0)
             if rng.random() < 0.75:
                 script.append(dict(a="SaveAck"))
                 seen, changed = [], []
-                for o, _ in inflight:
+                for o, _ in head:
                     if o in seen:
                         continue
                     seen.append(o)
-                    new = [v for k, v in inflight if k == o]
+                    new = [v for k, v in head if k == o]
                     if new != tor[o]:
                         changed.append((o, new))
                     tor[o] = new
@@ -82,7 +85,7 @@ def rand_script(rng, n, events):
                 del pend[:]                      # as-is: the whole pending set is dropped
             else:
                 script.append(dict(a="SaveReject"))
-            busy = False
+            busy = bool(flights)
             continue
         if r < 0.55:
             o = rng.choice(["s1", "s2"])
@@ -103,11 +106,13 @@ def rand_script(rng, n, events):
             script.append(dict(a="ListOp", o=o, old=list(view[o]), v=nv))
             view[o] = nv
             touch(o, nv)
-        elif r < 0.92 and not busy:
+        elif r < 0.92 and (not busy or (len(flights) < 3 and rng.random() < 0.3)):
+            # (now and then a second save() is made while an earlier one still awaits its reply)
             script.append(dict(a="SaveSend"))
             if pend:
                 busy = True
                 inflight = []
+                flights.append(inflight)
                 for o in pend:
                     for x in pval[o]:
                         if x != "DEFAULT":
